@@ -11,7 +11,10 @@ TB_SSZ = [
 
 PROPS = {"C04": dict(
     module="Proofs.Properties.C04",
-    theorems=["Zrnt.Proofs.C04.isFixed_iff"],
+    theorems=["Zrnt.Proofs.C04.decode_encode", "Zrnt.Proofs.C04.encode_size_eq_byteLength",
+              "Zrnt.Proofs.C04.fixedLen_iff_isFixed", "Zrnt.Proofs.C04.encode_size_of_isFixed",
+              "Zrnt.Proofs.C04.decode_some_imp_canonical", "Zrnt.Proofs.C04.decode_injective",
+              "Zrnt.Proofs.C04.decode_list_within_limit", "Zrnt.Proofs.C04.encode_injective"],
     modes=[dict(name="ssz")],
     level="proof",
     trusted_base=TB_COMMON + TB_SSZ,
